@@ -100,6 +100,7 @@ def gen_ops(rng, cfg, nops):
         'compile': rng.uniform(0.5, 3), 'update_model': rng.uniform(0.2, 2),
         'direct_write': rng.uniform(0, 1),
         'misuse': rng.choice([0, 0, 0.3, 1.0]),
+        'parfile': rng.choice([0, 0.4, 1.0]),
     }
     kinds = sorted(w)
     weights = [w[k] for k in kinds]
@@ -127,7 +128,28 @@ def gen_ops(rng, cfg, nops):
             ops.append([k, rng.choice(names), 10 ** rng.uniform(-3, 3)])
         elif k == 'misuse':
             ops.append([k, rng.choice(MUTATORS + ['bad_mode', 'wrong_len_long',
-                                                  'wrong_len_short'])])
+                                                  'wrong_len_short',
+                                                  'parfile_fit',
+                                                  'parfile_derive'])])
+        elif k == 'parfile':
+            # settings arrive through an input file's [Fitting]/[Derive]
+            # sections (ParameterParser.setup_optimizer)
+            ents = []
+            for n in rng.sample(names, rng.randint(1, len(names))):
+                e = {'fit': rng.random() < 0.6}
+                r = rng.random()
+                if r < 0.3:
+                    e['bounds'] = _bounds(rng)
+                elif r < 0.45:
+                    e['factor'] = [rng.uniform(0.1, 0.9), rng.uniform(1.1, 10)]
+                if rng.random() < 0.4:
+                    e['mode'] = rng.choice(['linear', 'log', 'LOG', 'Linear'])
+                if rng.random() < 0.3:
+                    e['prior'] = _prior_spec(rng)
+                ents.append([n, e])
+            dents = [[n, rng.random() < 0.5]
+                     for n in rng.sample(dnames, rng.randint(0, len(dnames)))]
+            ops.append([k, ents, dents])
     return ops
 
 
@@ -205,6 +227,38 @@ class Ref(object):
 # --------------------------------------------------------------------------
 # execution
 # --------------------------------------------------------------------------
+
+def prior_text(spec):
+    """The documented text form of a prior, as written in an input file."""
+    a = spec['args']
+    k = spec['kind']
+    if 'lin_bounds' in a:
+        return '%s(lin_bounds=(%r, %r))' % (k, a['lin_bounds'][0],
+                                            a['lin_bounds'][1])
+    if 'bounds' in a:
+        return '%s(bounds=(%r, %r))' % (k, a['bounds'][0], a['bounds'][1])
+    return '%s(mean=%r, std=%r)' % (k, a['mean'], a['std'])
+
+
+def parfile_text(ents, dents):
+    lines = ['[Fitting]']
+    for n, e in ents:
+        lines.append('%s:fit = %s' % (n, e['fit']))
+        if 'factor' in e:
+            lines.append('%s:factor = %r, %r' % (n, e['factor'][0],
+                                                 e['factor'][1]))
+        if 'bounds' in e:
+            lines.append('%s:bounds = %r, %r' % (n, e['bounds'][0],
+                                                 e['bounds'][1]))
+        if 'mode' in e:
+            lines.append('%s:mode = %s' % (n, e['mode']))
+        if 'prior' in e:
+            lines.append('%s:prior = "%s"' % (n, prior_text(e['prior'])))
+    lines.append('[Derive]')
+    for n, comp in dents:
+        lines.append('%s:compute = %s' % (n, comp))
+    return '\n'.join(lines) + '\n'
+
 
 def _close(a, b, rel=1e-12):
     a = float(a)
@@ -504,6 +558,36 @@ def execute(case, keep_text=False):
                     raise Stop()
                 ref.values[op[1]] = got
                 direct_since_compile = True
+            elif k == 'parfile':
+                import os
+                from taurex.parameter import ParameterParser
+                sdir = os.environ.get('VERIF_RUN_SCRATCH', '/dev/shm')
+                fn = os.path.join(sdir, 'c07-%d.par' % os.getpid())
+                with open(fn, 'w') as fh:
+                    fh.write(parfile_text(op[1], op[2]))
+                try:
+                    pp = ParameterParser()
+                    real_call(step, 'parfile:read', pp.read, fn)
+                    real_call(step, 'parfile:setup_optimizer',
+                              pp.setup_optimizer, opt)
+                finally:
+                    os.remove(fn)
+                for n, e in op[1]:
+                    pr = ref.params[n]
+                    pr['fit'] = bool(e['fit'])
+                    if 'factor' in e:
+                        v = ref.values[n]
+                        pr['bounds'] = [e['factor'][0] * v, e['factor'][1] * v]
+                    if 'bounds' in e:
+                        pr['bounds'] = list(e['bounds'])
+                    if 'mode' in e:
+                        pr['mode'] = e['mode'].lower()
+                    if 'prior' in e:
+                        pr['user_prior'] = e['prior']
+                for n, comp in op[2]:
+                    ref.derived[n]['compute'] = bool(comp)
+                out.bump('probes', 'settings_from_input_file')
+                dirty_since_compile = True
             elif k == 'misuse':
                 what = op[1]
                 before = _tables(ref, model, obs)
@@ -532,6 +616,24 @@ def execute(case, keep_text=False):
                     elif what == 'set_prior':
                         opt.set_prior('nope', M.make_prior(
                             {'kind': 'Uniform', 'args': {'bounds': [1, 2]}}))
+                    elif what in ('parfile_fit', 'parfile_derive'):
+                        # an input file naming an unknown parameter
+                        import os
+                        from taurex.parameter import ParameterParser
+                        fn = os.path.join(os.environ.get(
+                            'VERIF_RUN_SCRATCH', '/dev/shm'),
+                            'c07-%d.par' % os.getpid())
+                        with open(fn, 'w') as fh:
+                            fh.write(parfile_text(
+                                [['nope', {'fit': True}]], [])
+                                if what == 'parfile_fit' else
+                                parfile_text([], [['nope', True]]))
+                        try:
+                            pp = ParameterParser()
+                            pp.read(fn)
+                            pp.setup_optimizer(opt)
+                        finally:
+                            os.remove(fn)
                 except Exception:
                     raised = True
                 out.bump('faults', 'misuse:' + what)
